@@ -239,5 +239,5 @@ PROPERTY_UNITS['C02'] = ['frame', 'msgl3', 'l2', 'l1int', 'l1enc', 'bs_msgs', 'l
 # units that run only in the thorough tier
 THOROUGH_EXTRA = {'C08': ['l1float'], 'C01': ['l1float'], 'C07': ['l0contract']}
 
-PROPERTY_LEVEL = {'C07': 'other', 'C19': 'other', 'C16': 'other'}
-PROPERTY_EXPLANATION = {'C16': 'Deductive part (Verus): the three bias-list decoders never exceed their capacity and never panic. The encoders (iterator filter/count closures) are outside the verifier: bounded native search only, labelled bounded.', 'C19': 'Configuration sweep: for the empty selection and each single message feature the crate is type-checked without std, the expanded dispatch is checked to name only its own number, and the expanded decoder text is compared with the all_msgs expansion that the deductive units verify; plus the Verus obligations of unit msgl3 on the feature set.', 'C07': 'Kani/CBMC harnesses complete over values x widths x bit offsets x buffer contents for every carrier type; buffer length symbolic up to the window listed in bounded_stand_ins (bounded in that one dimension).'}
+PROPERTY_LEVEL = {'C07': 'other', 'C19': 'other'}
+PROPERTY_EXPLANATION = {'C19': 'Configuration sweep: for the empty selection and each single message feature the crate is type-checked without std, the expanded dispatch is checked to name only its own number, and the expanded decoder text is compared with the all_msgs expansion that the deductive units verify; plus the Verus obligations of unit msgl3 on the feature set.', 'C07': 'Kani/CBMC harnesses complete over values x widths x bit offsets x buffer contents for every carrier type; buffer length symbolic up to the window listed in bounded_stand_ins (bounded in that one dimension).'}
